@@ -206,7 +206,7 @@ struct St {
 static St *Gp;
 #define G (*Gp)
 
-static int p_slow_cb, p_req_storm, p_req_full, p_notify_deferred, p_fc_toggled, p_max_size_msg, p_backoff, p_early_req, p_early_out, p_emsgsize,
+static int p_stats_cleared, p_slow_cb, p_req_storm, p_req_full, p_notify_deferred, p_fc_toggled, p_max_size_msg, p_backoff, p_early_req, p_early_out, p_emsgsize,
 	p_send_eagain, p_disc_in_msg, p_ref_outlives, p_closed_retry, p_destroy_alive, p_teardown_kill_armed, p_req_rechecked, p_hostile_shutdown, p_hostile_refused, p_hostile_raw, p_list_walk, p_client_died, p_server_died,
 	p_refused, p_auth_set, p_pollin_checked, p_sendv_recv, p_event_delivered, p_resp_delivered, p_req_delivered, p_kill_fired,
 	p_hostile_conn, p_drain_ok, p_deferred_window, p_owner_checked, p_client_cleanup_checked, p_planted;
@@ -226,6 +226,7 @@ static void init(const char *prop)
 	p_max_size_msg = counter_id("probe", "message_of_exactly_max_size");
 	p_backoff = counter_id("probe", "msg_process_returned_negative");
 	p_slow_cb = counter_id("probe", "msg_process_took_30ms");
+	p_stats_cleared = counter_id("probe", "statistics_read_and_cleared");
 	p_req_storm = counter_id("probe", "more_than_50_requests_queued_at_once");
 	p_early_req = counter_id("probe", "request_dispatched_before_send_returned");
 	p_early_out = counter_id("probe", "response_or_event_read_before_send_returned");
@@ -615,7 +616,22 @@ static void do_server_op(const Op &op, Conn *ctx)
 		break; }
 	case K_S_STATS: {
 		if (!G.svc || G.svc_destroyed) break;
-		struct qb_ipcs_stats st; qb_ipcs_stats_get(G.svc, &st, 0);
+		// statistics are read - and, every other time, cleared - for the service and for every listed connection, through
+		// both connection calls: reading or clearing counters changes nothing about what the connections do
+		int32_t clear = (op.a[3] & 1) ? QB_TRUE : QB_FALSE;
+		struct qb_ipcs_stats st; qb_ipcs_stats_get(G.svc, &st, clear);
+		if (clear) count(p_stats_cleared);
+		qb_ipcs_connection_t *it = qb_ipcs_connection_first_get(G.svc);
+		int guard = 0;
+		while (it && guard++ < 64) {
+			struct qb_ipcs_connection_stats cs;
+			qb_ipcs_connection_stats_get(it, &cs, clear);
+			struct qb_ipcs_connection_stats_2 *cs2 = qb_ipcs_connection_stats_get_2(it, clear);
+			free(cs2);
+			qb_ipcs_connection_t *nx = qb_ipcs_connection_next_get(G.svc, it);
+			qb_ipcs_connection_unref(it);
+			it = nx;
+		}
 		break; }
 	case K_S_DESTROY: {
 		if (!G.svc || G.svc_destroyed) break;
@@ -1263,6 +1279,16 @@ static void check_modes(const char *when)
 				VIOL(5, "directory-too-permissive", "handle_new_connection", "%s: connection directory has mode %o (%s)", when, (unsigned)(st.st_mode & 0777), it->c_str() + 9);
 		} else if (st.st_mode & 0777 & ~allowed) {
 			VIOL(5, "file-too-permissive", "qb_sys_mmap_file_open", "%s: shared file has mode %o, the accept callback authorised %o (%s)", when, (unsigned)(st.st_mode & 0777), allowed, it->c_str() + 9);
+		} else if (k >= 0 && G.auth_set[k] && S_ISREG(st.st_mode)) {
+			// "at any moment of their existence": while a connection directory holds a file it belongs to whom the accept
+			// callback authorised - not to the peer, who could otherwise unlink or replace what is being set up in it
+			std::string dir = it->substr(0, it->rfind('/'));
+			unsigned u = ~0u, g = ~0u;
+			if (dir.size() > 9 && path_owner(dir.c_str(), &u, &g)) {
+				bool ubad = G.auth_uid[k] != (unsigned)-1 && u != G.auth_uid[k], gbad = G.auth_gid[k] != (unsigned)-1 && g != G.auth_gid[k];
+				if (ubad || gbad)
+					VIOL(5, "directory-wrong-owner-while-files-exist", "handle_new_connection", "%s: %s exists while its directory is owned by %u:%u, the accept callback authorised %u:%u", when, it->c_str() + 9, u, g, G.auth_uid[k], G.auth_gid[k]);
+			}
 		}
 	}
 }
@@ -1541,7 +1567,7 @@ static void gen(const char *prop, RunSpec &spec)
 			}
 			else if (k < 86) p.add(0, K_S_CLOSED_RETRY, T_CREATED, conn, 0, r.range(1, 3), r.below(4));
 			else if (k < 92) p.add(0, K_S_DESTROY, T_TICK, -1, r.range(2, 40));
-			else p.add(0, K_S_STATS, T_TICK, -1, r.range(1, 30));
+			else p.add(0, K_S_STATS, T_TICK, -1, r.range(1, 30), r.below(2));
 		} else if (w == 3 && k >= 70 && k < 86) {
 			// the application drops a connection on its own initiative (from connection_created, msg_process or a tick) while
 			// clients - and the server - die around it: whoever is left must still clean everything up
@@ -1550,7 +1576,7 @@ static void gen(const char *prop, RunSpec &spec)
 			// the application keeps a reference of its own on a connection for a while: a dead client's connection then
 			// lingers (shutting down, still listed) while other clients come and go
 			p.add(0, K_S_REF, r.chance(1, 2) ? T_CREATED : T_MSG, conn, r.range(0, 4), r.range(1, 40));
-		} else p.add(0, K_S_STATS, T_TICK, -1, r.range(1, 30));
+		} else p.add(0, K_S_STATS, T_TICK, -1, r.range(1, 30), r.below(2));
 	}
 	if (w == 4 && nc >= 2 && r.chance(1, 4)) {
 		// C04: one of the clients is turned away by the accept callback (its connection object lives and dies without ever
@@ -1589,6 +1615,13 @@ static void gen(const char *prop, RunSpec &spec)
 			if (r.chance(3, 4)) p.add(1, K_C_EVENT_RECV, r.chance(1, 2) ? 0 : (int64_t)r.range(1, 100));
 			if (r.chance(1, 4)) p.add(1, K_C_SLEEP, r.range(100, 30000));
 		}
+	}
+	if ((w == 2 || w == 4) && r.chance(1, 8)) {
+		// flow control switched on, the statistics read and cleared while it is on, flow control switched off again
+		int64_t t0 = r.range(1, 20);
+		p.add(0, K_S_RATE, T_TICK, -1, t0, r.chance(1, 2) ? 3 : 4);
+		p.add(0, K_S_STATS, T_TICK, -1, t0 + r.range(1, 3), 1);
+		p.add(0, K_S_RATE, T_TICK, -1, t0 + r.range(4, 8), r.below(3));
 	}
 	if ((w == 2 || w == 4 || w == 6) && r.chance(1, 8)) {
 		// "request storm": the application is slow over one request while the client sends 60..300 more without waiting, at
